@@ -209,10 +209,9 @@ def run_reuse(case):
                 break
             want_sends.append(b)
         want_end = want_sends[-1] + 0.5
-        want = sorted(R.discovery_response(d)["id"] for d in rd["datas"]
-                      if any(True for a in answers) and True)
-        want = sorted(R.discovery_response(d)["id"] for d, a in zip(rd["datas"], answers)
-                      if a < want_end)
+        # (byte-identical datagrams are one response)
+        uniq = {bytes(d) for d, a in zip(rd["datas"], answers) if a < want_end}
+        want = sorted(R.discovery_response(d)["id"] for d in uniq)
         got = sorted(getattr(x, "airtouch_id", None) for x in rd["ret"])
         if [round(x, 6) for x in rd["sends"]] != want_sends:
             v("discovery-request-instants-wrong", round=k, sends=rd["sends"], want=want_sends)
